@@ -277,8 +277,12 @@ func deep(open, close string, depth int) *node {
 	return raw(strings.Repeat(open, depth) + strings.Repeat(close, depth))
 }
 
-var extremeNumbers = []string{"-1", "0", "4294967296", "2147483648", "9223372036854775808", "-9223372036854775809",
-	"1e308", "1e999", "0.5", "1E-400", "99999999999999999999999999999999999999", "-0", "1.0000000000000000000000001"}
+// extremeNumbers: applied to EVERY numeric member: signs, 32/53/62/63/64 bit boundaries, large-but-representable sizes
+// (a number that ends up as a length / capacity / count), floats, fractions, out-of-range literals
+var extremeNumbers = []string{"-1", "0", "2147483647", "2147483648", "4294967295", "4294967296", "1000000000", "10000000000", "1e10",
+	"9007199254740992", "9007199254740993", "4611686018427387904", "9223372036854775807", "9223372036854775808", "-9223372036854775808",
+	"-9223372036854775809", "18446744073709551616", "1e308", "-1e308", "1e999", "0.5", "-0.5", "1E-400", "99999999999999999999999999999999999999",
+	"-0", "1.0000000000000000000000001"}
 
 // Operators is the list of structural mutation operators; must mirror Operators in MCRobust.tla.
 var Operators = []string{"type-string", "type-number", "type-bool", "type-null", "type-array", "type-object", "missing",
